@@ -911,6 +911,11 @@ def cycle_cases(ctx, rng, cuqi, state, cases):
         if g is None:
             continue
         prec, eps, x0, z, cyc, logu = g
+        # the model's orbit through the start closes after exactly the period the harness found (hypothesis of
+        # C08_concrete_closed_orbit_checked, evaluated by the kernel for the inputs of these cells)
+        cases.append(Case(expr="check_cycle %s (qc %s) %s %s %s" % (ctarget(spec), cq(frac(eps) / 2), cqvec(x0), cqvec(z), cnat(len(cyc))),
+                          meta={"target": spec, "eps": eps, "x0": x0, "z": z, "period": len(cyc), "cycle_closes": True},
+                          cell="model/cycle/N%d/closes" % len(cyc), kind="EXACT"))
         for impl in ("exp", "leg"):
             base = {"impl": impl, "target": spec, "eps": eps, "max_depth": md, "x0": x0, "z": z, "logu": float(logu), "cycle": True,
                     "period": len(cyc), "slice": slice_kind}
